@@ -100,7 +100,11 @@ def bucket_of(v):
 class Result:
     """Outcome of executing one case."""
 
+    _latest = None
+
     def __init__(self):
+        Result._latest = self     # lets the watchdog recover what a case
+        #                           had already observed when it timed out
         self.violations = []
         self.nontrivial = False
         self.classes = []
@@ -277,10 +281,16 @@ def with_timeout(fn, case, ctx, seconds=None):
         raise CaseTimeout()
 
     old = signal.signal(signal.SIGALRM, handler)
+    Result._latest = None
     signal.alarm(seconds)
     try:
         return fn(case)
     except CaseTimeout:
+        seen = Result._latest
+        if seen is not None and seen.violations:
+            # violations observed on valid states before the case hung
+            seen.discard = None
+            return seen
         r = Result()
         r.discard = 'timeout'
         if len(ctx.notes) < 5:
